@@ -284,14 +284,11 @@ func coqCase(o outcome, graceNs int64) string {
 	p := o.res.P
 	var sb strings.Builder
 	if p.Gated {
-		labs := make([]string, len(o.built.Labels))
-		for i, l := range o.built.Labels {
-			labs[i] = coqLabel(l, p.Concrete)
+		fn := "ptrace"
+		if !p.Concrete {
+			fn = "patrace"
 		}
-		tr := "[]"
-		if len(labs) > 0 {
-			tr = "[" + strings.Join(labs, "; ") + "]"
-		}
+		tr := fmt.Sprintf("(%s \"%s\")", fn, traceString(o.built.Labels, p.Concrete))
 		ok := len(o.built.Problems) == 0
 		if p.Concrete {
 			fmt.Fprintf(&sb, "{| cc_mode := %d; cc_wellformed := %s; cc_grace := (%d)%%Z; cc_fr := %s; cc_early := %s; cc_skip := %s; cc_kept := %s;\n   cc_trace := %s;\n   cc_obs := %s |}",
@@ -394,7 +391,7 @@ func main() {
 	fd1 := countFDs()
 
 	// ---- write shards
-	shardSizes := map[string]int{"ccases": 8, "acases": 30, "ncases": 100}
+	shardSizes := map[string]int{"ccases": 20, "acases": 20, "ncases": 100}
 	shardIndex := map[string][3]any{}
 	type group struct {
 		kind, typ, m, p string
